@@ -5,8 +5,8 @@ V = os.path.dirname(os.path.dirname(os.path.abspath(__file__)))
 props = [json.loads(l) for l in open(os.path.join(V, 'properties.jsonl'))]
 
 COMMON_NOTE = ("Trusted: Coq 8.16.1 kernel (vm_compute for witnesses; no native_compute); the hand-written Gallina model is tied to "
-               "/repo by the correspondence run in this same check (extraction with ExtrOcamlBasic only + ocaml/driver.ml; exhaustive "
-               "inside the stated scopes, random beyond); the Python oracle is the executable reading of the property text. ")
+               "/repo by the correspondence run in this same check (extraction with ExtrOcamlBasic only + ocaml/driver.ml, which moves decimal text through zarith; exhaustive "
+               "inside the stated scopes, random beyond) and, for the statistics / snapshot ids / compact_timeslot, by a source-to-Gallina translation re-proved equal to the model on every run (harness/sourcetie.py); the Python oracle is the executable reading of the property text. ")
 
 def T(proved, partial=None, validated=None):
     t = "Machine-checked Coq theorems about the executable model (coq/theories/properties/%s.v): " + proved
@@ -25,7 +25,7 @@ CLAIMED = {
                      "digraph interactions() is only sound (C02_interactions_partial / C02_digraph_interactions_refuted); undirected self-loop arithmetic: C02_size needs no_selfloop on DynGraph (C02_selfloop_refuted); density(G,t)=0 (C02_density_t_refuted).",
                      "the _iter / dn.* forms (one-line delegations) and non_interactions on DynDiGraph (set-order dependent) are compared by the correspondence / soundness oracle only."), design="DESIGN.md 5 C02"),
  'C03': dict(text=T("timelines are canonical, their union is the presence, both directions of an undirected pair expose one timeline (C03_canon, C03_union, C03_symmetric); time_slice/to_directed/to_undirected results and every graph the readers return (read_snapshots, read_interactions, node_link_graph; row and text level) satisfy all invariants, hence are canonical (C03_derived_wf, C03_wf_canon, C03_readers_wf, C03_wfg_canon)."), design="DESIGN.md 5 C03"),
- 'C04': dict(text=T("snapshot ids are strictly increasing and exactly the inhabited instants, per-snapshot counts equal the number of present pairs, dict form, avg_number_of_nodes (C04_ids, C04_count, C04_count_is_presence, C04_all, C04_avg).") , design="DESIGN.md 5 C04"),
+ 'C04': dict(text=T("[source-level tie: temporal_snapshots_ids and avg_number_of_nodes are translated from the Python text on every run and proved equal to the model, C04_source_text] snapshot ids are strictly increasing and exactly the inhabited instants, per-snapshot counts equal the number of present pairs, dict form, avg_number_of_nodes (C04_ids, C04_count, C04_count_is_presence, C04_all, C04_avg).") , design="DESIGN.md 5 C04"),
  'C05': dict(text=T("stream sorted and duplicate-free, '+' iff appearance, '-' sound, runs of >= 3 instants closed (C05_sorted_nodup, C05_plus, C05_minus_sound, C05_closed_partial); replaying the stream reconstructs presence whenever all runs of >= 2 instants are closed (C05_replay_partial).",
                      "closure of 2-instant runs and replay in their presence: C05_closed_refuted, C05_replay_refuted (witness 18,19; K-C05-1)."), design="DESIGN.md 5 C05"),
  'C06': dict(text=T("window errors/default, class, presence = window AND source presence, nodes+attributes, the slice is Good, WF and WFG (all invariants behind C02-C05), slicing a slice = slicing by the intersection of the windows for presence, snapshot ids, per-snapshot counts, node set and node attributes, empty when the windows do not meet (C06_window, C06_presence, C06_nodes, C06_slice_good, C06_slice_wellformed, C06_compose, C06_compose_ids, C06_compose_counts, C06_compose_nodes, C06_compose_disjoint).",
@@ -50,9 +50,10 @@ CLAIMED = {
  'C16': dict(text=T("to_undirected(): presence = OR of the two directions; reciprocal=True: AND (C16_undirected, C16_reciprocal); nodes/attributes kept; both conversions return graphs satisfying every invariant behind C02-C05 (C16_wellformed).",
                      "to_directed(): sound and complete up to orientation (C16_directed_partial), both orientations refuted (C16_directed_refuted, K-C16-1).",
                      "deepcopy isolation (attributes poked, runs of the result extended, source re-observed), source unchanged."), design="DESIGN.md 5 C16"),
- 'C17': dict(text=T("every ratio has 0 <= num <= den (C17_unit_interval), T_uv within T_u & T_v (C17_interaction_both), node_presence, edge_contribution = |T_uv|/|T| (C17_edge_contribution), inter-event histogram laws: mass, weighted sum, counts (C17_iet).",
-                     None, "equality of each ratio with its set-theoretic definition is definitional in the model and established against the implementation by the correspondence + oracle; float rounding."), design="DESIGN.md 5 C17"),
- 'C18': dict(text=T("comment/empty lines skipped and trailing comments ignored (C18_comments), short rows (C18_short_rows), readers = readers on the non-skipped rows (C18_noise), TypeError (C18_type_error), compact_timeslot is a strictly increasing bijection onto 0..k-1 (C18_compact), keys (C18_keys).",
+ 'C17': dict(text=T("AT THE LEVEL OF THE HISTORY: for every call sequence on a DynGraph, coverage, node_contribution, edge_contribution, node_pair_uniformity, uniformity, density, pair_density, node_presence, avg_number_of_nodes, node_density and (without self-loops) snapshot_density equal their stream-graph definitions written over the presence relation of the accepted calls only (StatsSpec.v sp_*: T_uv, T_u, T, V; C17_spec_sets, C17_spec_ratios, C17_spec_avg, C17_spec_node_density, C17_spec_snapshot_density); every ratio has 0 <= num <= den (C17_unit_interval), T_uv within T_u & T_v (C17_interaction_both), node_presence, edge_contribution = |T_uv|/|T| (C17_edge_contribution), inter-event histogram laws: mass = #events-1, weighted sum = last-first, counts (C17_iet). SOURCE-LEVEL TIE: the Python text of these methods is translated to Gallina on every run (tools/py2gallina_stats.py, fail-closed) and proved equal to the model functions (C17_source_text, C17_source_to_spec).",
+                     None, "float rounding of the final division; the per-pair inter_event_time_distribution(u, v) (outside the property's text); the inter-event variants are tied by the correspondence only."), design="DESIGN.md 5 C17",
+             technique="Coq proof (statistics = stream-graph definitions over the history's presence relation, for every call sequence) + source-to-Gallina translation of the statistics re-proved equal to the model on every run + model-implementation correspondence (extraction, differential) + independent oracle"),
+ 'C18': dict(text=T("[source-level tie: compact_timeslot is translated from the Python text on every run and proved equal to the model on duplicate-free lists, C18_source_text] comment/empty lines skipped and trailing comments ignored (C18_comments), short rows (C18_short_rows), readers = readers on the non-skipped rows (C18_noise), TypeError (C18_type_error), compact_timeslot is a strictly increasing bijection onto 0..k-1 (C18_compact), keys (C18_keys).",
                      None, "multi-character comment markers/delimiters, non-integer fields, Python's int() extras ('_' separators, non-ASCII digits)."), design="DESIGN.md 5 C18"),
  'C19': dict(text=T("blocked calls are no-ops raising NetworkXNotImplemented (C19_blocked_noop); no sequence over the API alphabet can break timelines/adjacency/stream/snapshot invariants (C19_wf_closed); frozen graphs (C19_frozen_partial, C19_is_frozen); a cleared graph is a fresh graph (C19_clear_fresh, C19_clear_then_calls, C19_clear_edges_fresh).",
                      "add_interaction succeeds on a frozen graph (C19_frozen_refuted, K-C19-1).",
